@@ -86,6 +86,12 @@ def check_one(case, ctx, deep):
                 ctx.call(site, plain, context.relations)
             got = [(r.kind, r.left, r.right if r.__class__.binary else None) for r in rel]
             ctx.check(got == want, site, plain, lambda: f'{site} = {got!r}, want {want!r}')
+            # the list handed out belongs to the caller: destroy it in place, ask the same context again
+            ctx.call(site + '/wreck', plain, lib.wreck, rel)
+            rel = ctx.call(site + '/again', plain, context.relations, include_unary=unary)
+            got = [(r.kind, r.left, r.right if r.__class__.binary else None) if hasattr(r, 'kind') else repr(r) for r in rel]
+            ctx.check(got == want, site + '/after-caller-edit', plain,
+                      lambda: f'{site} after the caller modified the list returned before = {got!r}, want {want!r}')
             # printing must be *defined* (the statement fixes no layout: column widths, which rows are shown and the
             # wording of a line are the library's business - DESIGN.md 10.8)
             text = ctx.call(site + '/str', plain, str, rel)
